@@ -12,9 +12,11 @@ import (
 	"os"
 	"path/filepath"
 	"runtime"
+	"runtime/pprof"
 	"sort"
 	"strconv"
 	"strings"
+	"sync"
 	"time"
 
 	"golang.org/x/tools/go/ssa"
@@ -453,21 +455,45 @@ func cmdCheck(args []string) {
 	// everything below it pass vacuously)
 	reach := map[string]string{}
 	seenVC := map[*VC]bool{}
+	type reachJob struct {
+		key string
+		vc  *VC
+		res string
+	}
+	var jobs []*reachJob
 	for _, o := range cr.obls {
 		vc := o.vc
 		if seenVC[vc] || vc.exitGuard == "" {
 			continue
 		}
 		seenVC[vc] = true
-		eo := &Obl{vc: vc, Prefix: vc.exitPrefix, Guard: vc.exitGuard, Goal: "true"}
-		r := CheckSat(eo.ReachQuery(), 10)
-		reach[o.Name[:6]+" "+vc.Func] = r
-		if r == "unsat" {
+		jobs = append(jobs, &reachJob{key: o.Name[:6] + " " + vc.Func, vc: vc})
+	}
+	{
+		var wg sync.WaitGroup
+		sem := make(chan struct{}, runtime.NumCPU()/2+1)
+		for _, j := range jobs {
+			wg.Add(1)
+			go func(j *reachJob) {
+				defer wg.Done()
+				sem <- struct{}{}
+				defer func() { <-sem }()
+				eo := &Obl{vc: j.vc, Prefix: j.vc.exitPrefix, Guard: j.vc.exitGuard, Goal: "true"}
+				// only "unsat" (contradictory assumptions) matters; quantified
+				// hypotheses usually make the solver answer unknown
+				j.res = CheckSat(eo.ReachQuery(), 5)
+			}(j)
+		}
+		wg.Wait()
+	}
+	for _, j := range jobs {
+		reach[j.key] = j.res
+		if j.res == "unsat" {
 			violations++
 			rp := filepath.Join(*verif, "replays", fmt.Sprintf("%s-vacuity.json", *prop))
-			js, _ := json.MarshalIndent(map[string]interface{}{"property": *prop, "kind": "vacuity: assumptions contradictory at the exit of " + vc.Func}, "", " ")
+			js, _ := json.MarshalIndent(map[string]interface{}{"property": *prop, "kind": "vacuity: assumptions contradictory at the exit of " + j.vc.Func}, "", " ")
 			os.WriteFile(rp, js, 0644)
-			lines = append(lines, fmt.Sprintf("VIOLATION property=%s replay=%s obligation=<vacuity> assumptions are contradictory at the exit of %s no-failing-input-found", *prop, rp, vc.Func))
+			lines = append(lines, fmt.Sprintf("VIOLATION property=%s replay=%s obligation=<vacuity> assumptions are contradictory at the exit of %s no-failing-input-found", *prop, rp, j.vc.Func))
 		}
 	}
 	vacuity["reachability"] = reach
@@ -482,6 +508,7 @@ func cmdCheck(args []string) {
 		writeEvidence(cr, *prop, *tier, seed, discharged, violations, disagreements, solverCount, solverTime, vacuity, knownMatched, fixed, wall)
 	}
 	if violations > 0 {
+		pprof.StopCPUProfile()
 		os.Exit(1)
 	}
 }
